@@ -571,7 +571,9 @@ func init() {
 			"Not decided: the exact contents of the window over whole histories of slot numbers.",
 		"database batch semantics trusted", "added in the build round (DESIGN.md §8.2): the window itself stays value-level",
 		func(c *Ctx) {
-			c.load("dot/state")
+			c.load("dot/state", "lib/babe")
+			c.ruleStaleHash("lib/babe")
+			c.min("R-STALEHASH", 3)
 			c.ruleEquivocation()
 			c.ruleEquivocationEarlyOut()
 			c.min("R-EARLYOUT", 2)
